@@ -21,7 +21,7 @@ import (
 // C03: mode composition truth table on the real caddy module.
 
 var c03Modes = []string{"", "prefer_ocsp", "prefer_crl", "ocsp_only", "crl_only", "disabled"}
-var c03OCSP = []string{"no-aia", "good", "revoked", "unavailable"}
+var c03OCSP = []string{"no-aia", "good", "revoked", "unavailable", "unusable-answer"}
 var c03CRL = []string{"none-known", "listed", "not-listed", "cdp-unavailable", "cdp-unavailable+listed-in-configured-file"}
 var c03Chains = []string{"leaf-ca", "leaf-sub-root", "two-chains"}
 
@@ -120,6 +120,9 @@ func (c *c03Cast) run(cell c03Cell) (o c03Obs) {
 				st = xocsp.Revoked
 			}
 			net.Serve(c03OCSPURL, cell.OCSP, world.BuildOCSP(world.OCSPAnswer{Status: st, Serial: leaf.Cert.SerialNumber, Issuer: iss, Signer: iss, ThisUpdate: vsched.Epoch.Add(-time.Minute)}))
+		case "unusable-answer":
+			// the responder is reachable and answers 200, but nothing that can be authenticated
+			net.Serve(c03OCSPURL, "html", []byte("<html><body>maintenance</body></html>"))
 		default:
 			net.Down(c03OCSPURL)
 		}
@@ -178,7 +181,7 @@ func c03Expect(cell c03Cell) (reject bool, ocspOn, crlOn bool) {
 	}
 	ocspOn = mode == "prefer_ocsp" || mode == "prefer_crl" || mode == "ocsp_only"
 	crlOn = mode == "prefer_ocsp" || mode == "prefer_crl" || mode == "crl_only"
-	ocspBad := cell.OCSP == "revoked" || (cell.OCSP == "unavailable" && cell.AIAStrict)
+	ocspBad := cell.OCSP == "revoked" || ((cell.OCSP == "unavailable" || cell.OCSP == "unusable-answer") && cell.AIAStrict)
 	crlBad := cell.CRL == "listed" || cell.CRL == "cdp-unavailable+listed-in-configured-file" || (cell.CRL == "cdp-unavailable" && cell.CDPStrict)
 	reject = (ocspOn && ocspBad) || (crlOn && crlBad)
 	return
@@ -188,8 +191,8 @@ func c03Expect(cell c03Cell) (reject bool, ocspOn, crlOn bool) {
 func RunC03(tier string, args []string) int {
 	chk := fw.NewCheck("C03", tier, "model_checking")
 	chk.Assumptions = []string{
-		"finite truth table enumerated completely: mode(6) x OCSP outcome(4) x aia_strict(2) x CRL outcome(5) x cdp_strict(2) x backend(2) x chain shape(3) = 2880 cells; each cell = fresh Provision -> one VerifyClientCertificate -> Cleanup on the real caddy module",
-		"oracle: reject <=> (OCSP enabled and (revoked or strict-unavailable)) or (CRL enabled and (listed or strict-unavailable)); side-effect monitors on the scripted origin and the work_dir",
+		"finite truth table enumerated completely: mode(6) x OCSP outcome(5: no AIA, good, revoked, unreachable, reachable but unusable answer) x aia_strict(2) x CRL outcome(5) x cdp_strict(2) x backend(2) x chain shape(3) = 3600 cells; each cell = fresh Provision -> one VerifyClientCertificate -> Cleanup on the real caddy module",
+		"oracle: reject <=> (OCSP enabled and (revoked or, under aia_strict, no authentic answer)) or (CRL enabled and (listed or strict-unavailable)); side-effect monitors on the scripted origin and the work_dir",
 		"empty verifiedChains are not judged (the TLS stack never passes them in require-and-verify mode)",
 	}
 	SilenceStderr()
